@@ -1,11 +1,13 @@
 #!/bin/bash
 # Re-runs every stored seed through the checks named in its meta.json (first word = tier, rest = properties).
 # Prints one line per seed: CAUGHT / MISSED / DOES-NOT-APPLY.
+# Optional argument: a glob restricting the seeds (e.g. 'C0[57]*'); VERIF_OWN_ONLY=1 runs only the seed's own property.
 cd /verif
-for d in seeded/*/; do
+for d in seeded/${1:-*}/; do
   name=$(basename $d)
   props=$(python3 -c "import json;print(' '.join(json.load(open('$d/meta.json'))['checks_run'].split()[1:]))")
-  out=$(tools/mutant.sh $d/patch.diff quick $props 2>&1)
+  [ -n "${VERIF_OWN_ONLY:-}" ] && props=${name:0:3}
+  out=$(VERIF_NO_EVIDENCE=1 tools/mutant.sh $d/patch.diff quick $props 2>&1)
   if echo "$out" | grep -q "PATCH DOES NOT APPLY"; then echo "DOES-NOT-APPLY $name"; continue; fi
   if echo "$out" | grep -qE "exit=1$"; then echo "CAUGHT $name ($(echo "$out" | grep -cE 'exit=1$') of $(echo $props | wc -w) checks)"; else echo "MISSED $name"; fi
 done
